@@ -301,6 +301,9 @@ func idBytes(spec map[string]interface{}) []byte {
 	if spec["kind"] == "absent" {
 		return nil
 	}
+	if spec["kind"] == "empty" { // present but of length zero: the same convention as absent
+		return make([]byte, 0, 8)
+	}
 	n := int(spec["n"].(float64))
 	b := make([]byte, n)
 	for i := 1; i <= n; i++ {
@@ -629,3 +632,58 @@ func c13sweep(args []string) error {
 }
 
 func init() { cmds["c13-sweep"] = c13sweep }
+
+// c02-sweep <template.json> <n> <out.json>: Encrypt under the template's key with the nonce stream <<k, k+1, k+2>> for
+// k = 2..n and every plaintext length of "mlens"; reports the (k, mlen) for which more than one nonce was drawn, the call
+// failed, or the library cannot decrypt its own ciphertext - each becomes a case for the specification (which knows how
+// many nonces the standard's all-zero key-stream rule consumes) - and the number of encryptions made
+func c02sweep(args []string) error {
+	b, err := os.ReadFile(args[0])
+	if err != nil {
+		return err
+	}
+	var c map[string]interface{}
+	if err := json.Unmarshal(b, &c); err != nil {
+		return err
+	}
+	n, err := strconv.Atoi(args[1])
+	if err != nil {
+		return err
+	}
+	priv := privOf(c["d"].(string))
+	odd := []map[string]interface{}{}
+	total := 0
+	for k := 2; k <= n; k++ {
+		for _, ml := range c["mlens"].([]interface{}) {
+			mlen := int(ml.(float64))
+			msg := msgBytes(0, mlen)
+			ks := []*big.Int{big.NewInt(int64(k)), big.NewInt(int64(k + 1)), big.NewInt(int64(k + 2))}
+			rd := &nonceReader{ks: ks, size: 40}
+			total++
+			why := ""
+			pan := recoverStr(func() {
+				ct, err := sm2.Encrypt(&priv.PublicKey, msg, rd, sm2.C1C3C2)
+				switch {
+				case err != nil:
+					why = "Encrypt failed: " + err.Error()
+				case rd.reads != 1:
+					why = fmt.Sprintf("%d nonces drawn", rd.reads)
+				default:
+					if pt, e := sm2.Decrypt(priv, ct, sm2.C1C3C2); e != nil || !bytes.Equal(pt, msg) {
+						why = fmt.Sprintf("own ciphertext does not decrypt (%v)", e)
+					}
+				}
+			})
+			if pan != "" {
+				why = "panic: " + pan
+			}
+			if why != "" && len(odd) < 6 {
+				odd = append(odd, map[string]interface{}{"k": k, "mlen": mlen, "why": why})
+			}
+		}
+	}
+	out, _ := json.Marshal(map[string]interface{}{"encryptions": total, "odd": odd})
+	return os.WriteFile(args[2], out, 0o644)
+}
+
+func init() { cmds["c02-sweep"] = c02sweep }
